@@ -152,7 +152,7 @@ structure IDl where
   k : Nat
   size : Nat                           -- metadata size announced by the peer
   nb : Nat                             -- number of blocks
-  pending : Int                        -- in-flight requests (the Go counter can go below zero)
+  pending : Int                        -- in-flight requests
   blocks : List (Option Bool)          -- per block: last stored data is the true bytes?
   snub : Bool := false
   deriving Repr, Inhabited
